@@ -270,6 +270,25 @@ impl<'a> PairFn for Comp<'a> {
             self.out.class("filtered: options not admissible");
             return;
         }
+        // the verifier's side of the identity: it evaluates the same constraints at the out-of-domain point from the opened
+        // frame and compares with the opened composition columns - on an honest proof the two must agree (a rejection with
+        // any other reason belongs to C01)
+        {
+            let st = self.st;
+            let (cols, _vals, pubs) = build_statement::<B>(st);
+            if kit::pan::catch(|| <SpecAir<B> as Air>::new(starkit::SpecTrace::<B>::new(&st.spec, &cols, st.meta.clone()).info, pubs.clone(), st.opts.to_options())).is_ok() {
+                if let (starkit::ProveOutcome::Proof(p), _) = starkit::prove_with::<B, H, starkit::Coin<H>>(st, &cols, &pubs, None) {
+                    if let starkit::VerifyOutcome::Reject(e) = starkit::verify_with::<B, H, starkit::Coin<H>>(*p, &pubs, &starkit::lenient()) {
+                        if e.contains("out-of-domain") || e.contains("OodConstraint") {
+                            self.out.violation(
+                                format!("{}: the verifier's evaluation of the constraints at the out-of-domain point disagrees with the committed composition polynomial of an honest proof", PAIRS[self.pair]),
+                                json!({"spec": st.spec.json(), "options": format!("{:?}", st.opts), "error": e}),
+                            );
+                        }
+                    }
+                }
+            }
+        }
         match self.st.opts.ext {
             1 => run_ext::<B, B, H>(self),
             2 => run_ext::<B, math::fields::QuadExtension<B>, H>(self),
